@@ -30,7 +30,7 @@ N_QUICK, N_THOROUGH = 28, 400
 N_SEARCH = 72   # size of the extra oracle search after a broken obligation/correspondence (real threaded runs are slow)
 PARALLEL = 8
 SHARD = 20
-RUN_TIMEOUT = 60
+RUN_TIMEOUT = 45
 FINDING = "C21-orchestrator-start-foreign-thread"
 RULE = ("real thread-mode runs (modes: plain; poke = a foreign thread calls end_metrics / current_solution / "
         "current_global_cost / replication_metrics / stop_agents(grace 0..0.2 s) / wait_ready during the run; "
@@ -183,7 +183,7 @@ def run_impl(case):
     # never unregisters and Orchestrator.run waits without limit); that is not a statement about
     # thread identity, so a run that hit the hard limit is repeated once and only a repeated
     # failure is reported (the first one stays visible as 'first_error' / in the histogram)
-    return rt.run_isolated(_real, case, hard_timeout=RUN_TIMEOUT + 30, retries=1)
+    return rt.run_isolated(_real, case, hard_timeout=RUN_TIMEOUT + 20, retries=1)
 
 
 # ------------------------------------------------------------------ oracle
